@@ -315,8 +315,8 @@ def scale_chains(max_p, max_m, jobs=16):
     return n, fails
 
 
-def sweep(bm, bp, jobs=16):
-    cases = list(box(bm, ["ta", "tb", "tc"], bp))
+def sweep(bm, bp, jobs=16, topics=("ta", "tb", "tc")):
+    cases = list(box(bm, list(topics), bp))
     step = max(1, len(cases) // (jobs * 4))
     chunks = [cases[i:i + step] for i in range(0, len(cases), step)]
     n = nontrivial = 0
@@ -342,6 +342,13 @@ def main():
                    "subscription, followed by (a) the identical round, (b) every non-empty proper subset of members removed, "
                    "(c) 1..2 members added [b, c when all subscriptions are equal]" % (bm, bp),
           "failures": fails, "wall_s": round(time.time() - t0, 1), "replay": {"script": REPLAY}})
+    # "every cluster layout": one with an internal topic (flagged so in the metadata, like __consumer_offsets), which the real
+    # ClusterMetadata.topics() leaves out unless asked, while a consumer created with exclude_internal_topics=False subscribes to it
+    n, nontrivial, fails = sweep(3, 3 if a.tier == "quick" else 4, topics=("ta", "__ti"))
+    emit({"name": "sticky-two-rounds-internal-topic-box", "exhaustive": True, "cases": n, "distinct_nontrivial": nontrivial,
+          "bound": "as sticky-two-rounds-box over the topics ['ta', '__ti' (internal)], <= 3 members, 0..%d partitions or no metadata"
+                   % (3 if a.tier == "quick" else 4),
+          "failures": fails, "replay": {"script": REPLAY_INTERNAL}})
     mp_, mm = (24, 6) if a.tier == "quick" else (48, 9)
     n, fails = scale_chains(mp_, mm)
     emit({"name": "sticky-scale-out-in-chains", "exhaustive": True, "cases": n, "distinct_nontrivial": n,
@@ -374,6 +381,15 @@ def main():
                    "which 1..2 old members that only lost partitions in round 2 report their round-1 assignment with generation 1 "
                    "while the others report round 2 with generation 2 (the claims resolve to the round-2 assignment), seed %d" % (nl, a.seed),
           "failures": fails[:20], "failures_total": len(fails), "replay": {"script": REPLAY_LAG % a.seed}})
+
+
+REPLAY_INTERNAL = '''
+import sys
+sys.path.insert(0, "/verif")
+from bounded import C15
+n, nt, fails = C15.sweep(3, 2, jobs=4, topics=("ta", "__ti"))
+VIOLATED = bool(fails); DETAIL = "%d of %d two-round cases with a subscribed internal topic fail; first: %r" % (len(fails), n, fails[:1])
+'''
 
 
 REPLAY_LAGBOX = '''
